@@ -128,6 +128,10 @@ fn emu_mem_diff(emu: &EmuPost, hw_mem: &[Vec<u8>]) -> Option<String> {
     let mut found: Option<String> = None;
     let mut seen = 0usize;
     ax.verif_for_each_area(|start, _access, data| {
+        if data.is_empty() {
+            // (empty areas are the mirror's own, see build_mirror)
+            return;
+        }
         if let Some(i) = REGIONS.iter().position(|r| r.start == start) {
             seen += 1;
             if found.is_none() && data != &hw_mem[i][..] {
